@@ -537,14 +537,17 @@ ConcReq(s, r) ==
   [ok |-> v.ok, entry |-> r.entry, allow |-> r.allow, a |-> Asg(vh, vc, sh, sc, r.hint),
    order |-> r.order, hintpos |-> r.hintpos, form |-> r.form]
 
-ValidReq(s, r) ==
-  /\ ValuesOf(s, r).ok
+\* cheap part of the validity of an abstract request (the expensive part is ConcReq(s, r).ok)
+PlausibleReq(s, r) ==
   /\ (r.fee = "wrap32" => s.mag \in {"g", "a"})
   /\ (r.fee = "wrap64" => s.mag = "a")
   /\ (r.d = "mid" => SkewOf(s) # 0)
   /\ (r.entry = "p1" /\ r.order = "swap" => r.form = "ok")
+  /\ NvOf(s, r) >= 0
+ValidReq(s, r) == PlausibleReq(s, r) /\ ValuesOf(s, r).ok
 
-AbsReqs(s, k) == {r \in ReqsWithin({GoodReq(s, "p1"), GoodReq(s, "p2")}, k) : ValidReq(s, r)}
+PlausibleReqs(s, k) == {r \in ReqsWithin({GoodReq(s, "p1"), GoodReq(s, "p2")}, k) : PlausibleReq(s, r)}
+AbsReqs(s, k) == {r \in PlausibleReqs(s, k) : ValuesOf(s, r).ok}
 
 (***************************************************************************)
 (* The judged form of a concrete request (what ImplMutualClose rebuilds     *)
